@@ -49,16 +49,7 @@ Fixpoint dv_zip (f : Q -> Q -> Q) (a b : dvec) : dvec :=
 
 Definition dv_add (a b : dvec) : dvec := dv_zip Qplus a b.                 (* operator+=(VectorBase) *)
 Definition dv_sub (a b : dvec) : dvec := dv_zip Qminus a b.                (* operator-=(VectorBase) *)
-Definition dv_scale (x : Q) (a : dvec) : dvec := map (fun y => y * x) a.   (* SVectorBase::remove(int n, int m) as documented ("remove nonzeros n thru m", 0 <= n <= m < size()): the last
-   min(m-n+1, size()-m-1) non-zeros move into the hole, the last one first *)
-Definition sv_remove_range (n m : nat) (v : svec) : svec :=
-  let size := length v in
-  let count := (m + 1 - n)%nat in
-  let tail := (size - (m + 1))%nat in
-  let cpy := Nat.min count tail in
-  firstn n v ++ rev (skipn (size - cpy) v) ++ firstn (size - count - n - cpy) (skipn (n + cpy) v).
-
-(* operator*=(x) *)
+Definition dv_scale (x : Q) (a : dvec) : dvec := map (fun y => y * x) a.   (* operator*=(x) *)
 Definition dv_multadd (x : Q) (b a : dvec) : dvec := dv_zip (fun y z => y + x * z) a b.  (* a.multAdd(x,b) *)
 Definition dv_neg (a : dvec) : dvec := map Qopp a.
 
@@ -124,6 +115,15 @@ Definition sv_remove (p : nat) (v : svec) : svec :=
         (if Nat.eqb p (length v - 1) then removelast v else sv_set_nth (removelast v) p lst)
       else v                                       (* the code asserts p < size() *)
   end.
+
+(* SVectorBase::remove(int n, int m) as documented ("remove nonzeros n thru m", 0 <= n <= m < size()): the last
+   min(m-n+1, size()-m-1) non-zeros move into the hole, the last one first *)
+Definition sv_remove_range (n m : nat) (v : svec) : svec :=
+  let size := length v in
+  let count := (m + 1 - n)%nat in
+  let tail := (size - (m + 1))%nat in
+  let cpy := Nat.min count tail in
+  firstn n v ++ rev (skipn (size - cpy) v) ++ firstn (size - count - n - cpy) (skipn (n + cpy) v).
 
 (* operator*=(x) *)
 Definition sv_scale (x : Q) (v : svec) : svec := map (fun e => (fst e, snd e * x)) v.
@@ -390,8 +390,13 @@ Definition ss_assign_ss (eps : Q) (rhs this : ssvec) : ssvec :=
     mkSS (fold_left (fun d i => dv_set d i (dv_get (ss_val rhs) i)) keep base) keep true.
 
 (* SSVectorBase::reDim(newdim) *)
+(* "for(i = size()-1; i >= 0; --i) if(index(i) >= newdim) remove(i);" - IdxSet::remove(i) moves the last index into
+   position i, so the surviving indices are permuted (ssvectorbase.h:582-592) *)
 Definition ss_redim (n : nat) (s : ssvec) : ssvec :=
-  mkSS (dv_redim n (ss_val s)) (filter (fun i => Nat.ltb i n) (ss_idx s)) (ss_setup s).
+  mkSS (dv_redim n (ss_val s))
+       (fold_left (fun l p => if Nat.leb n (nth p l 0%nat) then nl_remove_pos p l else l)
+                  (rev (seq 0 (length (ss_idx s)))) (ss_idx s))
+       (ss_setup s).
 
 (* x^T A for a set of sparse vectors (rows of A as svecs): SSVectorBase::assign2product and friends compute
    result[j] = sum_i x[i] * A_i[j]; modelled by its meaning *)
